@@ -206,6 +206,7 @@ func cmdCheck(args []string) {
 		os.Exit(2)
 	}
 	t0 := time.Now()
+	initAnswerCache()
 	g := mustLoad()
 	keys := g.funcsForProp(*prop)
 	tagged := len(keys)
@@ -263,7 +264,7 @@ func cmdCheck(args []string) {
 	dischargeCanaries(canaries, ctime)
 
 	known := loadKnownFindings()
-	total, discharged := 0, 0
+	total, discharged, reused := 0, 0, 0
 	byBackend := map[string]int{}
 	var solverTime, maxTime float64
 	type slow struct {
@@ -292,6 +293,9 @@ func cmdCheck(args []string) {
 			slows = append(slows, slow{ob.ID, ob.TimeS})
 			if ob.Status == "unsat" {
 				discharged++
+				if ob.Cached {
+					reused++
+				}
 				byBackend[ob.Solver]++
 				if len(samples) < 6 && ob.Solver != "trivial" && (ob.Kind == "post" || ob.Kind == "inv-pres") {
 					samples = append(samples, map[string]any{"obligation": ob.ID, "kind": ob.Kind, "clause": ob.Desc, "position": ob.Pos, "smt_bytes": ob.Bytes, "solver": ob.Solver, "time_s": round3(ob.TimeS)})
@@ -408,6 +412,8 @@ func cmdCheck(args []string) {
 		"distinct_nontrivial":      discharged - byBackend["trivial"],
 		"rule":                     "one evaluation = one verification condition generated from /repo's current SSA and discharged by an SMT solver; non-trivial = needed a solver call (not syntactically true)",
 		"not_mechanised":           info.NotMech,
+		"answers_reused":           reused,
+		"answers_reused_rule":      "an unsat answer is remembered under the SHA-256 of the complete SMT script (generated afresh from /repo's current tree on every run); an obligation whose script is byte-identical to one already proved (typically: the same function checked for another property) reuses that answer instead of calling the solver again; failures are never remembered; VERIF_NO_CACHE=1 turns this off",
 	}
 	if *tier == "thorough" {
 		cov["functions_tagged_with_property"] = tagged
